@@ -131,12 +131,13 @@ Section Main.
   Variable tx_valid : chain -> list N -> tx -> bool.
   Variable gt_ok : chain -> tx -> bool.
   Variable work_needed : N -> N -> N -> N -> N.
+  Variable supply_ok : chain -> list N -> block -> bool.
   Variable hchain : list N -> N.
   Variable mroot : list N -> N.
 
   Notation createM := (create chain view cv hchain mroot).
   Notation validateM := (validate chain view cv tx_valid gt_ok work_needed mroot).
-  Notation acceptsM := (node_accepts chain view cv tx_valid gt_ok work_needed mroot).
+  Notation acceptsM := (node_accepts chain view cv tx_valid gt_ok work_needed supply_ok mroot).
   Notation nodeM := (node chain).
 
   (* shape of the transaction list that create assembles *)
@@ -241,4 +242,626 @@ Section Main.
       - apply tx_at_last.
     Qed.
   End Shape.
+
+  Lemma guarded_tpt e : nth 9 (guarded_fields e) 0 = e_total_payout_treasury e.
+  Proof. reflexivity. Qed.
+  Lemma guarded_tpg e : nth 10 (guarded_fields e) 0 = e_total_payout_graveyard e.
+  Proof. reflexivity. Qed.
+  Lemma guarded_tpa e : nth 11 (guarded_fields e) 0 = e_total_payout_atr e.
+  Proof. reflexivity. Qed.
+
+  Lemma nonempty_not_nil {A} (l : list A) : l <> [] -> is_nil l = false.
+  Proof. destruct l; [congruence|reflexivity]. Qed.
+
+  Theorem produced_validates : forall dbg (n : nodeM) creator ts gt drained b p,
+    v_tip (view (n_chain _ n)) = Some p ->
+    createM dbg n creator ts gt drained = Ok b ->
+    let cC := cv (n_chain _ n) (n_ledger _ n) (pre_block (Some p) (par_hash p) creator ts gt drained) in
+    let cV := cv (n_chain _ n) (n_ledger _ n) b in
+    agreesb dbg hchain cC cV = true ->
+    cv_types_ok cC = true ->
+    (c_fee_tx cC <> None -> gt <> None) ->
+    (forall g, gt = Some g -> is_type TGoldenTicket g = true /\ gt_ok (n_chain _ n) g = true) ->
+    pool_types_ok drained = true ->
+    drained <> [] ->
+    count_type TIssuance drained = 0 ->
+    (v_stake_req (view (n_chain _ n)) = 0 \/ count_type TBlockStake drained = 1) ->
+    forallb (tx_valid (n_chain _ n) (n_ledger _ n)) (b_txs b) = true ->
+    work_needed (par_burnfee p) ts (par_ts p) (v_heartbeat (view (n_chain _ n))) <= nsum (map t_work drained) ->
+    validateM dbg n true b = Ok true.
+  Proof.
+    intros dbg n creator ts gt drained b p Htip Hcreate cC cV Hag Hty Hfeegt Hgt Hpool Hne Hiss Hstake Hvalid Hwork.
+    unfold create in Hcreate. rewrite Htip in Hcreate. cbv zeta in Hcreate.
+    fold cC in Hcreate.
+    set (C := c_econ cC) in *.
+    destruct (uadd dbg (e_total_fees_new C) (e_total_fees_atr C)) as [tf| |s1] eqn:Etf; cbn [bind] in Hcreate; try discriminate.
+    destruct (uadd dbg (par_treasury p) (e_total_payout_treasury C)) as [t1| |s2] eqn:Et1; cbn [bind] in Hcreate; try discriminate.
+    destruct (usub dbg t1 (e_total_payout_atr C)) as [tr| |s3] eqn:Etr; cbn [bind] in Hcreate; try discriminate.
+    destruct (uadd dbg (par_graveyard p) (e_total_payout_graveyard C)) as [gy| |s4] eqn:Egy; cbn [bind] in Hcreate; try discriminate.
+    cbn [b_txs pre_block b_id b_unpaid] in Hcreate.
+    set (atrs := c_rebroadcasts cC) in *.
+    set (fee := c_fee_tx cC) in *.
+    fold (final_txs gt drained atrs fee) in Hcreate.
+    set (txs1 := final_txs gt drained atrs fee) in *.
+    destruct (dup_spend txs1) eqn:Edup; try discriminate.
+    injection Hcreate as Hb.
+    (* the hypotheses about cv, unpacked *)
+    unfold cv_types_ok in Hty. fold atrs fee in Hty. rewrite andb_true_iff in Hty. destruct Hty as [Hatr Hfeety].
+    assert (Hfee : forall f, fee = Some f -> is_type TFee f = true).
+    { intros f Hf. rewrite Hf in Hfeety. exact Hfeety. }
+    assert (Hgt1 : forall g, gt = Some g -> is_type TGoldenTicket g = true) by (intros g Hg; apply (Hgt g Hg)).
+    unfold agreesb in Hag. fold C atrs fee in Hag. rewrite Etf in Hag.
+    rewrite !andb_true_iff in Hag. destruct Hag as [[[[[Hg Hbf] Hdf] Hsl] Hrh] Hft].
+    apply eqb_lN_eq in Hg. apply N.eqb_eq in Hbf, Hdf, Hsl, Hrh.
+    set (V := c_econ cV) in *.
+    assert (Htpt : e_total_payout_treasury V = e_total_payout_treasury C).
+    { rewrite <- (guarded_tpt V), Hg. reflexivity. }
+    assert (Htpg : e_total_payout_graveyard V = e_total_payout_graveyard C).
+    { rewrite <- (guarded_tpg V), Hg. reflexivity. }
+    assert (Htpa : e_total_payout_atr V = e_total_payout_atr C).
+    { rewrite <- (guarded_tpa V), Hg. reflexivity. }
+    (* projections of the produced block *)
+    assert (Btxs : b_txs b = txs1) by (rewrite <- Hb; reflexivity).
+    assert (Bid : b_id b = par_id p + 1) by (rewrite <- Hb; reflexivity).
+    assert (Bts : b_ts b = ts) by (rewrite <- Hb; reflexivity).
+    assert (Bprev : b_prev b = par_hash p) by (rewrite <- Hb; reflexivity).
+    assert (Bsigned : b_signed b = true) by (rewrite <- Hb; reflexivity).
+    assert (Becon : b_econ b = set_total_fees C tf) by (rewrite <- Hb; reflexivity).
+    assert (Btr : b_treasury b = tr) by (rewrite <- Hb; reflexivity).
+    assert (Bgy : b_graveyard b = gy) by (rewrite <- Hb; reflexivity).
+    assert (Bunpaid : b_unpaid b = match gt with Some _ => 0 | None => par_total_fees p end) by (rewrite <- Hb; reflexivity).
+    assert (Bmerkle : b_merkle b = mroot (map t_id txs1)) by (rewrite <- Hb; reflexivity).
+    assert (Bwork : b_total_work b = nsum (map t_work txs1)) by (rewrite <- Hb; reflexivity).
+    assert (Bslips : b_rb_slips b = nsum (map t_atr_slips (atr_txs txs1))) by (rewrite <- Hb; reflexivity).
+    assert (Bhash : b_rb_hash b = hchain (map t_id (atr_txs txs1))) by (rewrite <- Hb; reflexivity).
+    assert (Hatrs : atr_txs txs1 = atrs) by (apply final_atrs; assumption).
+    clear Hb. subst txs1.
+    unfold validate. cbv zeta. fold cV. fold V.
+    rewrite Btxs, Bid, Bts, Bprev, Bsigned, Becon, Btr, Bgy, Bunpaid, Bmerkle, Bwork, Bslips, Bhash, Hatrs.
+    (* 1: the block has transactions *)
+    assert (Hnn : is_nil (final_txs gt drained atrs fee) = false).
+    { apply nonempty_not_nil. unfold final_txs. destruct gt; cbn; [discriminate|].
+      destruct drained; [congruence|discriminate]. }
+    rewrite Hnn. cbn [andb negb].
+    (* 2: comparisons *)
+    unfold eq_all. rewrite Hg, eqb_lN_refl. cbn [andb negb].
+    change (e_burnfee (set_total_fees C tf)) with (e_burnfee C).
+    change (e_difficulty (set_total_fees C tf)) with (e_difficulty C).
+    rewrite Hbf, Hdf, !N.eqb_refl. cbn [negb].
+    (* 3: issuance / staking *)
+    rewrite (final_count gt drained atrs fee) with (k := TIssuance) by (assumption || discriminate).
+    rewrite Hiss. change (0 <? 0) with false. cbn [andb].
+    rewrite (final_count gt drained atrs fee) with (k := TBlockStake) by (assumption || discriminate).
+    assert (Hst : negb (v_stake_req (view (n_chain chain n)) =? 0) && negb (count_type TBlockStake drained =? 1) = false).
+    { destruct Hstake as [-> | ->]; rewrite N.eqb_refl; cbn; [reflexivity|apply andb_false_r]. }
+    rewrite Hst. cbn [andb].
+    (* 4: the parent *)
+    unfold parent_of. rewrite Htip, N.eqb_refl.
+    destruct (par_ghost p); [reflexivity|].
+    rewrite Htpt, Et1. cbn [bind]. rewrite Htpa, Etr. cbn [bind].
+    rewrite N.eqb_refl. cbn [andb negb].
+    rewrite Htpg, Egy. cbn [bind]. rewrite N.eqb_refl. cbn [andb negb].
+    assert (Hw : (nsum (map t_work (final_txs gt drained atrs fee)) <? work_needed (par_burnfee p) ts (par_ts p) (v_heartbeat (view (n_chain chain n)))) = false).
+    { apply N.ltb_ge. unfold final_txs. rewrite !map_app, !nsum_app. lia. }
+    rewrite Hw.
+    rewrite (final_gt_index gt drained atrs fee) by assumption.
+    assert (Hgtpart : (match (if is_some gt then Some 0 else None) with
+                       | Some gi =>
+                           if negb (match gt with Some _ => 0 | None => par_total_fees p end =? 0) then Ok (Some false)
+                           else match tx_at (final_txs gt drained atrs fee) gi with
+                                | Some g => if gt_ok (n_chain chain n) g then Ok None else Ok (Some false)
+                                | None => Ok None
+                                end
+                       | None => if negb (match gt with Some _ => 0 | None => par_total_fees p end =? par_total_fees p)
+                                 then Ok (Some false) else Ok None
+                       end) = @Ok (option bool) None).
+    { destruct gt as [g|] eqn:Eg; cbn [is_some].
+      - rewrite N.eqb_refl. cbn [negb]. change (tx_at (final_txs (Some g) drained atrs fee) 0) with (Some g).
+        destruct (Hgt g eq_refl) as [_ ->]. reflexivity.
+      - rewrite N.eqb_refl. reflexivity. }
+    rewrite Hgtpart. cbn [bind].
+    (* 5: rebroadcasts, merkle root *)
+    rewrite Hsl, Hrh, !N.eqb_refl. cbn [andb negb].
+    (* 6: fee transaction *)
+    assert (Hfc : fee_tx_check true cV (final_txs gt drained atrs fee) = true).
+    { unfold fee_tx_check.
+      rewrite (final_count_fee gt drained atrs fee) by assumption.
+      rewrite (final_gt_index gt drained atrs fee) by assumption.
+      destruct fee as [f|] eqn:Ef; cbn [is_some].
+      - change (1 <? 1) with false. change (0 <? 1) with true. cbn [andb].
+        destruct (c_fee_tx cV) as [f'|]; [|discriminate]. cbn [is_some negb].
+        assert (Hfi := final_fee_index gt drained atrs (Some f)).
+        destruct Hfi with (f := f) as [-> ->]; try assumption; try reflexivity.
+        assert (Hgs : is_some gt = true).
+        { destruct gt; [reflexivity|]. exfalso. apply Hfeegt; [discriminate|reflexivity]. }
+        rewrite Hgs. cbn [is_some negb]. apply N.eqb_eq in Hft. rewrite Hft, N.eqb_refl. reflexivity.
+      - reflexivity. }
+    rewrite Hfc. cbn [negb].
+    (* 7: the sweep *)
+    unfold txs_sweep. rewrite Btxs in Hvalid.
+    rewrite Hvalid, Edup. reflexivity.
+  Qed.
+
+  Notation bundleM := (bundle chain view cv tx_valid work_needed hchain mroot).
+  Notation can_bundleM := (can_bundle chain view work_needed).
+  Notation intakeM := (add_transaction_if_validates chain tx_valid).
+
+  (* ---------------------------------------------------------------- create: the list *)
+  Lemma create_txs dbg (n : nodeM) creator ts gt drained b p :
+    v_tip (view (n_chain _ n)) = Some p ->
+    createM dbg n creator ts gt drained = Ok b ->
+    let cC := cv (n_chain _ n) (n_ledger _ n) (pre_block (Some p) (par_hash p) creator ts gt drained) in
+    b_txs b = final_txs gt drained (c_rebroadcasts cC) (c_fee_tx cC)
+    /\ b_unpaid b = match gt with Some _ => 0 | None => par_total_fees p end
+    /\ b_prev b = par_hash p.
+  Proof.
+    intros Htip Hcreate cC. unfold create in Hcreate. rewrite Htip in Hcreate. cbv zeta in Hcreate.
+    fold cC in Hcreate.
+    destruct (uadd dbg _ _) as [tf| |s1]; cbn [bind] in Hcreate; try discriminate.
+    destruct (uadd dbg _ _) as [t1| |s2]; cbn [bind] in Hcreate; try discriminate.
+    destruct (usub dbg _ _) as [tr| |s3]; cbn [bind] in Hcreate; try discriminate.
+    destruct (uadd dbg _ _) as [gy| |s4]; cbn [bind] in Hcreate; try discriminate.
+    destruct (dup_spend _); try discriminate.
+    injection Hcreate as <-. repeat split; reflexivity.
+  Qed.
+
+  (* ---------------------------------------------------------------- the gate *)
+  Lemma gate_inv (n : nodeM) m ts g w p :
+    v_tip (view (n_chain _ n)) = Some p ->
+    can_bundleM n m ts g = Some w ->
+    is_nil (m_txs m) = false /\ m_fresh m = true /\ gt_count_ok (view (n_chain _ n)) g = true
+    /\ work_needed (par_burnfee p) ts (par_ts p) (v_heartbeat (view (n_chain _ n))) <= m_work m
+    /\ par_ts p + v_offset (view (n_chain _ n)) <= ts.
+  Proof.
+    intros Htip H. unfold can_bundle in H. rewrite Htip in H.
+    destruct (v_blocks_empty _); [discriminate|].
+    destruct (m_queue_empty m); cbn [negb] in H; [|discriminate].
+    destruct (is_nil (m_txs m)); cbn [orb] in H; [discriminate|].
+    destruct (m_fresh m); cbn [negb] in H; [|discriminate].
+    destruct (gt_count_ok _ g); cbn [negb] in H; [|discriminate].
+    destruct (ts <? par_ts p + v_offset _) eqn:E1; [discriminate|].
+    destruct (work_needed _ _ _ _ <=? m_work m) eqn:E2; [|discriminate].
+    apply N.ltb_ge in E1. apply N.leb_le in E2. auto.
+  Qed.
+
+  (* bundle allowed => the block's total_work (recomputed by Block::generate over ALL its
+     transactions) reaches the work Block::validate asks for -- provided the cached pool work
+     does not over-report the pooled transactions *)
+  Theorem gate_implies_work : forall dbg (n : nodeM) creator m ts gt w p drained b,
+    v_tip (view (n_chain _ n)) = Some p ->
+    can_bundleM n m ts (is_some gt) = Some w ->
+    m_work m <= nsum (map t_work drained) ->
+    createM dbg n creator ts gt drained = Ok b ->
+    work_needed (par_burnfee p) (b_ts b) (par_ts p) (v_heartbeat (view (n_chain _ n))) <= b_total_work b.
+  Proof.
+    intros dbg n creator m ts gt w p drained b Htip Hgate Hcache Hcreate.
+    destruct (gate_inv n m ts (is_some gt) w p Htip Hgate) as (_ & _ & _ & Hneed & _).
+    unfold create in Hcreate. rewrite Htip in Hcreate. cbv zeta in Hcreate.
+    destruct (uadd dbg _ _) as [tf| |s1]; cbn [bind] in Hcreate; try discriminate.
+    destruct (uadd dbg _ _) as [t1| |s2]; cbn [bind] in Hcreate; try discriminate.
+    destruct (usub dbg _ _) as [tr| |s3]; cbn [bind] in Hcreate; try discriminate.
+    destruct (uadd dbg _ _) as [gy| |s4]; cbn [bind] in Hcreate; try discriminate.
+    destruct (dup_spend _); try discriminate.
+    injection Hcreate as <-. cbn [generate b_ts b_total_work b_txs pre_block].
+    rewrite !map_app, !nsum_app. lia.
+  Qed.
+
+  (* ---------------------------------------------------------------- the pool's intake *)
+  Lemma add_transaction_txs dbg m t m1 :
+    add_transaction dbg m t = Ok m1 ->
+    (m_txs m1 = m_txs m \/ (m_txs m1 = t :: m_txs m /\ is_type TGoldenTicket t = false))
+    /\ m_gts m1 = m_gts m.
+  Proof.
+    unfold add_transaction. destruct (conflicts m t); [intros [= <-]; auto|].
+    destruct (has_sig _ _); [intros [= <-]; auto|].
+    destruct (uadd dbg _ _) as [w| |s]; cbn [bind]; try discriminate.
+    destruct (is_type TGoldenTicket t) eqn:E; [discriminate|]. intros [= <-]. cbn. auto.
+  Qed.
+
+  Lemma intake_txs dbg (n : nodeM) m t m1 :
+    intakeM dbg n m t = Ok m1 ->
+    (m_txs m1 = m_txs m \/ (m_txs m1 = t :: m_txs m /\ pool_tx_ok t = true))
+    /\ m_gts m1 = m_gts m.
+  Proof.
+    unfold add_transaction_if_validates. destruct (producer_only t) eqn:Ep; [intros [= <-]; auto|].
+    destruct (tx_valid _ _ t); [|intros [= <-]; auto].
+    intros H. destruct (add_transaction_txs dbg m t m1 H) as [[H1|[H1 H2]] H3]; split; auto.
+    right. split; [exact H1|]. unfold pool_tx_ok. unfold producer_only in Ep.
+    rewrite !orb_false_iff in Ep. destruct Ep as [[E1 E2] E3]. now rewrite H2, E1, E2.
+  Qed.
+
+  Lemma drain_perm order l : Permutation (drain_in order l) l.
+  Proof. apply sort_by_perm. Qed.
+
+  Lemma nsum_work_cons (t : tx) l : nsum (map t_work l) <= nsum (map t_work (t :: l)).
+  Proof. cbn. unfold nsum; cbn. fold (nsum (map t_work l)). lia. Qed.
+
+  (* ---------------------------------------------------------------- bundle_block *)
+  Lemma bundle_inv dbg (n : nodeM) creator m ts gt stake order b m' p :
+    v_tip (view (n_chain _ n)) = Some p ->
+    bundleM dbg n creator m ts gt stake order = Ok (Bundled b, m') ->
+    exists w s m1,
+      can_bundleM n m ts (is_some gt) = Some w /\ stake = Some s /\ intakeM dbg n m s = Ok m1
+      /\ createM dbg n creator ts gt (drain_in order (m_txs m1)) = Ok b
+      /\ m_gts m' = m_gts m /\ m_txs m' = [].
+  Proof.
+    intros Htip H. unfold bundle in H. rewrite Htip in H.
+    destruct (negb (par_ts p <? ts)); [discriminate|].
+    destruct (can_bundle _ _ _ n m ts (is_some gt)) as [w|] eqn:Eg; [|discriminate].
+    destruct stake as [s|]; [|discriminate].
+    destruct (add_transaction_if_validates _ _ dbg n m s) as [m1| |s1] eqn:Ei; cbn [bind] in H; try discriminate.
+    destruct (create _ _ _ _ _ dbg n creator ts gt _) as [b0| |s2] eqn:Ec; try discriminate.
+    injection H as <- <-. exists w, s, m1. cbn. repeat split; auto.
+    destruct (intake_txs dbg n m s m1 Ei) as [_ ->]. reflexivity.
+  Qed.
+
+  Theorem bundle_produced_validates : forall dbg (n : nodeM) creator m ts gt stake order b m' p,
+    v_tip (view (n_chain _ n)) = Some p ->
+    bundleM dbg n creator m ts gt stake order = Ok (Bundled b, m') ->
+    forall s m1, stake = Some s -> intakeM dbg n m s = Ok m1 ->
+    let drained := drain_in order (m_txs m1) in
+    let cC := cv (n_chain _ n) (n_ledger _ n) (pre_block (Some p) (par_hash p) creator ts gt drained) in
+    let cV := cv (n_chain _ n) (n_ledger _ n) b in
+    agreesb dbg hchain cC cV = true ->
+    cv_types_ok cC = true ->
+    (c_fee_tx cC <> None -> gt <> None) ->
+    (forall g, gt = Some g -> is_type TGoldenTicket g = true /\ gt_ok (n_chain _ n) g = true) ->
+    pool_types_ok (m_txs m1) = true ->
+    count_type TIssuance (m_txs m1) = 0 ->
+    (v_stake_req (view (n_chain _ n)) = 0 \/ count_type TBlockStake (m_txs m1) = 1) ->
+    forallb (tx_valid (n_chain _ n) (n_ledger _ n)) (b_txs b) = true ->
+    m_work m <= nsum (map t_work (m_txs m)) ->
+    supply_ok (n_chain _ n) (n_ledger _ n) b = true ->
+    acceptsM dbg n b = Ok true.
+  Proof.
+    intros dbg n creator m ts gt stake order b m' p Htip Hb s m1 Hs Hi drained cC cV
+           Hag Hty Hfeegt Hgt Hpool Hiss Hstake Hvalid Hcache Hsupply.
+    destruct (bundle_inv dbg n creator m ts gt stake order b m' p Htip Hb)
+      as (w & s' & m1' & Hgate & Hs' & Hi' & Hcreate & _ & _).
+    rewrite Hs in Hs'. injection Hs' as <-. rewrite Hi in Hi'. injection Hi' as <-.
+    fold drained in Hcreate.
+    destruct (gate_inv n m ts (is_some gt) w p Htip Hgate) as (Hnil & _ & Hgtc & Hneed & _).
+    assert (Hperm : Permutation drained (m_txs m1)) by apply drain_perm.
+    assert (Hsup : nsum (map t_work (m_txs m)) <= nsum (map t_work (m_txs m1))).
+    { destruct (intake_txs dbg n m s m1 Hi) as [[->|[-> _]] _]; [lia|apply nsum_work_cons]. }
+    assert (Hne1 : m_txs m1 <> []).
+    { destruct (intake_txs dbg n m s m1 Hi) as [[->|[-> _]] _]; [|discriminate].
+      destruct (m_txs m); [discriminate|discriminate]. }
+    unfold node_accepts.
+    destruct (create_txs dbg n creator ts gt drained b p Htip Hcreate) as (Htxs & _ & _).
+    fold cC in Htxs.
+    assert (Hgt1 : forall g, gt = Some g -> is_type TGoldenTicket g = true) by (intros g Hg; apply (Hgt g Hg)).
+    unfold cv_types_ok in Hty. rewrite andb_true_iff in Hty. destruct Hty as [Hatr Hfeety].
+    assert (Hfee : forall f, c_fee_tx cC = Some f -> is_type TFee f = true).
+    { intros f Hf. rewrite Hf in Hfeety. exact Hfeety. }
+    assert (Hpool' : pool_types_ok drained = true).
+    { unfold pool_types_ok in *. rewrite (forallb_perm _ _ _ Hperm). exact Hpool. }
+    assert (Hhas : has_gt b = is_some gt).
+    { unfold has_gt. rewrite Htxs. rewrite final_count_gt by assumption. destruct gt; reflexivity. }
+    rewrite Hhas, Hgtc. cbn [negb].
+    assert (Hv : validateM dbg n true b = Ok true); [|rewrite Hv; cbn [bind]; rewrite Hsupply; reflexivity].
+    apply produced_validates with (creator := creator) (ts := ts) (gt := gt) (drained := drained) (p := p); auto.
+    - unfold cv_types_ok. fold cC. rewrite Hatr. cbn [andb]. exact Hfeety.
+    - intros E. apply Hne1. apply Permutation_nil. rewrite <- E. exact Hperm.
+    - unfold count_type in *. rewrite (countb_perm _ _ _ Hperm). exact Hiss.
+    - destruct Hstake as [H|H]; [left; exact H|right]. unfold count_type in *. rewrite (countb_perm _ _ _ Hperm). exact H.
+    - rewrite (nsum_perm _ _ (Permutation_map t_work Hperm)). lia.
+  Qed.
+
+  (* the second node: Block::validate reads the chain (blocks, ring, block files) and the
+     ledger; the ledger is a function of the chain on every node (C03) *)
+  Theorem second_node_same : forall (replay : chain -> list N) dbg (n n2 : nodeM) b,
+    n_chain _ n2 = n_chain _ n ->
+    n_ledger _ n = replay (n_chain _ n) ->
+    n_ledger _ n2 = replay (n_chain _ n2) ->
+    acceptsM dbg n2 b = acceptsM dbg n b.
+  Proof.
+    intros replay dbg [c l] [c2 l2] b; cbn. intros -> -> ->. reflexivity.
+  Qed.
+
+  (* ---------------------------------------------------------------- the refuted class:
+     a pooled golden ticket whose solution does not validate *)
+  Ltac step_if :=
+    match goal with
+    | |- (if ?c then _ else _) <> _ => destruct c; [discriminate|]
+    end.
+
+  Theorem invalid_gt_rejected : forall dbg (n : nodeM) creator ts g drained b p vu,
+    v_tip (view (n_chain _ n)) = Some p ->
+    par_ghost p = false ->
+    createM dbg n creator ts (Some g) drained = Ok b ->
+    is_type TGoldenTicket g = true ->
+    gt_ok (n_chain _ n) g = false ->
+    pool_types_ok drained = true ->
+    cv_types_ok (cv (n_chain _ n) (n_ledger _ n) (pre_block (Some p) (par_hash p) creator ts (Some g) drained)) = true ->
+    validateM dbg n vu b <> Ok true.
+  Proof.
+    intros dbg n creator ts g drained b p vu Htip Hghost Hcreate Hg Hbad Hpool Hty.
+    destruct (create_txs dbg n creator ts (Some g) drained b p Htip Hcreate) as (Htxs & Hunpaid & Hprev).
+    set (cC := cv (n_chain _ n) (n_ledger _ n) (pre_block (Some p) (par_hash p) creator ts (Some g) drained)) in *.
+    unfold cv_types_ok in Hty. rewrite andb_true_iff in Hty. destruct Hty as [Hatr Hfeety].
+    assert (Hfee : forall f, c_fee_tx cC = Some f -> is_type TFee f = true).
+    { intros f Hf. rewrite Hf in Hfeety. exact Hfeety. }
+    assert (Hgt1 : forall g0, Some g = Some g0 -> is_type TGoldenTicket g0 = true) by (intros g0 [= <-]; exact Hg).
+    unfold validate. cbv zeta.
+    repeat step_if.
+    unfold parent_of. rewrite Htip, Hprev, N.eqb_refl, Hghost.
+    destruct (uadd dbg _ _) as [t1| |s2]; cbn [bind]; try discriminate.
+    destruct (usub dbg _ _) as [tr| |s3]; cbn [bind]; try discriminate.
+    destruct (vu && negb (b_treasury b =? tr)); cbn [bind]; [discriminate|].
+    destruct (uadd dbg _ _) as [gy| |s4]; cbn [bind]; try discriminate.
+    destruct (vu && negb (b_graveyard b =? gy)); cbn [bind]; [discriminate|].
+    destruct (b_total_work b <? _); cbn [bind]; [discriminate|].
+    rewrite Htxs. rewrite (final_gt_index (Some g) drained (c_rebroadcasts cC) (c_fee_tx cC)) by assumption.
+    cbn [is_some]. rewrite Hunpaid, N.eqb_refl. cbn [negb].
+    change (tx_at (final_txs (Some g) drained (c_rebroadcasts cC) (c_fee_tx cC)) 0) with (Some g).
+    cbv iota beta. rewrite Hbad. cbn [bind]. discriminate.
+  Qed.
+
+  (* the ticket stays selected: bundle_block never touches the ticket map, and
+     add_block_failure deletes under the hash of the failed block *)
+  Lemma pick_gt_del m_g tip h : h <> tip ->
+    find (fun x : N * tx => fst x =? tip) (del_gt h m_g) = find (fun x : N * tx => fst x =? tip) m_g.
+  Proof.
+    intros Hne. unfold del_gt. induction m_g as [|[k t] r IH]; cbn; [reflexivity|].
+    destruct (k =? h) eqn:E1; cbn.
+    - apply N.eqb_eq in E1. subst k. destruct (h =? tip) eqn:E2; [apply N.eqb_eq in E2; congruence|exact IH].
+    - destruct (k =? tip); [reflexivity|exact IH].
+  Qed.
+
+  Lemma add_all_gts dbg m l m1 : add_all dbg m l = Ok m1 -> m_gts m1 = m_gts m.
+  Proof.
+    revert m. induction l as [|t r IH]; cbn; intros m; [intros [= <-]; reflexivity|].
+    destruct (add_transaction dbg m t) as [m2| |s] eqn:E; cbn [bind]; try discriminate.
+    intros H. rewrite (IH m2 H). apply (add_transaction_txs dbg m t m2 E).
+  Qed.
+
+  Lemma add_all_types dbg m l m1 :
+    add_all dbg m l = Ok m1 -> pool_types_ok (m_txs m) = true -> forallb pool_tx_ok l = true ->
+    pool_types_ok (m_txs m1) = true.
+  Proof.
+    revert m. induction l as [|t r IH]; cbn; intros m; [intros [= <-]; auto|].
+    destruct (add_transaction dbg m t) as [m2| |s] eqn:E; cbn [bind]; try discriminate.
+    rewrite andb_true_iff. intros H Hm [Ht Hr]. apply (IH m2 H); [|exact Hr].
+    destruct (add_transaction_txs dbg m t m2 E) as [[->|[-> _]] _]; [exact Hm|].
+    unfold pool_types_ok; cbn. now rewrite Ht.
+  Qed.
+
+  Lemma normal_pool_ok t : is_type TNormal t = true -> pool_tx_ok t = true.
+  Proof.
+    intros H. unfold pool_tx_ok.
+    rewrite (is_type_other TNormal TGoldenTicket t H), (is_type_other TNormal TFee t H),
+            (is_type_other TNormal TATR t H) by discriminate. reflexivity.
+  Qed.
+
+  Lemma after_failure_inv dbg (n : nodeM) m h mine b m1 tip :
+    after_failure chain tx_valid dbg n m h mine b = Ok m1 -> h <> tip ->
+    pool_types_ok (m_txs m) = true ->
+    pick_gt m1 tip = pick_gt m tip /\ pool_types_ok (m_txs m1) = true.
+  Proof.
+    unfold after_failure. intros H Hne Hp. destruct mine.
+    - destruct (add_all dbg _ _) as [m2| |s] eqn:E; cbn [bind] in H; try discriminate.
+      injection H as <-. cbn [m_gts m_txs]. split.
+      + unfold pick_gt. cbn [m_gts]. rewrite (add_all_gts _ _ _ _ E). cbn [m_gts].
+        now rewrite pick_gt_del.
+      + apply (add_all_types _ _ _ _ E); [exact Hp|].
+        rewrite forallb_forall. intros t Ht. apply filter_In in Ht. destruct Ht as [_ Ht].
+        rewrite andb_true_iff in Ht. apply normal_pool_ok. apply Ht.
+    - injection H as <-. cbn [m_gts m_txs]. split; [|exact Hp].
+      unfold pick_gt. cbn [m_gts]. now rewrite pick_gt_del.
+  Qed.
+
+  (* one timer tick of the consensus thread: bundle with the ticket the pool holds for the
+     tip; an own block that the node rejects goes through add_block_failure.
+     Result: was a block accepted, and the pool afterwards. *)
+  Definition tick (dbg : bool) (n : nodeM) (creator tip : N) (m : mpool)
+             (a : N * option tx * list N * N) : res (bool * mpool) :=
+    let '(ts, stake, order, block_hash) := a in
+    match bundleM dbg n creator m ts (pick_gt m tip) stake order with
+    | Ok (Bundled b, m') =>
+        match acceptsM dbg n b with
+        | Ok true => Ok (true, m')
+        | Ok false => do m2 <- after_failure chain tx_valid dbg n m' block_hash true b; Ok (false, m2)
+        | Err => Err
+        | Panic s => Panic s
+        end
+    | Ok (_, m') => Ok (false, m')
+    | Err => Err
+    | Panic s => Panic s
+    end.
+
+  Fixpoint ticks (dbg : bool) (n : nodeM) (creator tip : N) (m : mpool)
+           (l : list (N * option tx * list N * N)) : res (bool * mpool) :=
+    match l with
+    | [] => Ok (false, m)
+    | a :: r =>
+        do x <- tick dbg n creator tip m a;
+        if fst x then Ok x else ticks dbg n creator tip (snd x) r
+    end.
+
+  Lemma bundle_keeps dbg (n : nodeM) creator m ts gt stake order out m' :
+    bundleM dbg n creator m ts gt stake order = Ok (out, m') ->
+    pool_types_ok (m_txs m) = true ->
+    m_gts m' = m_gts m /\ pool_types_ok (m_txs m') = true.
+  Proof.
+    intros H Hp. unfold bundle in H.
+    destruct (negb _); [discriminate|].
+    destruct (can_bundle _ _ _ n m ts (is_some gt)); [|injection H as <- <-; auto].
+    destruct stake as [s|]; [|injection H as <- <-; auto].
+    destruct (add_transaction_if_validates _ _ dbg n m s) as [m1| |s1] eqn:Ei; cbn [bind] in H; try discriminate.
+    destruct (intake_txs dbg n m s m1 Ei) as [_ Hg].
+    destruct (create _ _ _ _ _ dbg n creator ts gt _) as [b0| |s2]; try discriminate;
+      injection H as <- <-; cbn [m_gts m_txs]; auto.
+  Qed.
+
+  Theorem invalid_gt_stuck : forall dbg (n : nodeM) creator p g,
+    v_tip (view (n_chain _ n)) = Some p ->
+    par_ghost p = false ->
+    is_type TGoldenTicket g = true ->
+    gt_ok (n_chain _ n) g = false ->
+    (forall b0, cv_types_ok (cv (n_chain _ n) (n_ledger _ n) b0) = true) ->
+    forall attempts m r m_end,
+      pick_gt m (par_hash p) = Some g ->
+      pool_types_ok (m_txs m) = true ->
+      Forall (fun a : N * option tx * list N * N => snd a <> par_hash p) attempts ->
+      ticks dbg n creator (par_hash p) m attempts = Ok (r, m_end) ->
+      r = false /\ pick_gt m_end (par_hash p) = Some g.
+  Proof.
+    intros dbg n creator p g Htip Hghost Hg Hbad Hcvty attempts.
+    induction attempts as [|a rest IH]; intros m r m_end Hpick Hp Hne H.
+    - cbn in H. injection H as <- <-. auto.
+    - cbn [ticks] in H. inversion Hne as [|? ? Ha Hrest]; subst.
+      destruct a as [[[ts stake] order] bh]. cbn [snd] in Ha.
+      unfold tick in H. rewrite Hpick in H.
+      destruct (bundle _ _ _ _ _ _ _ dbg n creator m ts (Some g) stake order) as [[out m']| |s] eqn:Eb;
+        cbn [bind] in H; try discriminate.
+      destruct (bundle_keeps dbg n creator m ts (Some g) stake order out m' Eb Hp) as [Hg' Hp'].
+      assert (Hpick' : pick_gt m' (par_hash p) = Some g) by (unfold pick_gt in *; now rewrite Hg').
+      destruct out as [| | |b]; cbn [bind fst snd] in H; try (apply (IH m' r m_end); assumption).
+      destruct (bundle_inv dbg n creator m ts (Some g) stake order b m' p Htip Eb)
+        as (w & s & m1 & _ & _ & Hi & Hcreate & _ & _).
+      assert (Hpool1 : pool_types_ok (drain_in order (m_txs m1)) = true).
+      { unfold pool_types_ok. rewrite (forallb_perm _ _ _ (drain_perm order (m_txs m1))).
+        destruct (intake_txs dbg n m s m1 Hi) as [[->|[-> Hs]] _]; [exact Hp|].
+        cbn. rewrite Hs. exact Hp. }
+      assert (Hrej : acceptsM dbg n b <> Ok true).
+      { unfold node_accepts. destruct (negb _); [discriminate|].
+        assert (Hv : validateM dbg n true b <> Ok true) by (eapply invalid_gt_rejected; eauto).
+        destruct (validate _ _ _ _ _ _ _ dbg n true b) as [[|]| |s1]; cbn [bind]; try discriminate.
+        congruence. }
+      destruct (node_accepts _ _ _ _ _ _ _ _ dbg n b) as [[|]| |s1] eqn:Ea; cbn [bind] in H; try discriminate.
+      + congruence.
+      + destruct (after_failure _ _ dbg n m' bh true b) as [m2| |s2] eqn:Eaf; cbn [bind fst snd] in H; try discriminate.
+        destruct (after_failure_inv dbg n m' bh true b m2 (par_hash p) Eaf Ha Hp') as [Hk Hp2].
+        apply (IH m2 r m_end); try assumption. now rewrite Hk.
+  Qed.
+
+  (* ---------------------------------------------------------------- agreesb, field by field *)
+  Theorem agreesb_fields : forall dbg cC cV,
+    agreesb dbg hchain cC cV = true <->
+    let C := c_econ cC in let V := c_econ cV in
+    uadd dbg (e_total_fees_new C) (e_total_fees_atr C) = Ok (e_total_fees V)
+    /\ e_total_fees_new V = e_total_fees_new C
+    /\ e_total_fees_atr V = e_total_fees_atr C
+    /\ e_total_fees_cumulative V = e_total_fees_cumulative C
+    /\ e_avg_total_fees V = e_avg_total_fees C
+    /\ e_avg_total_fees_new V = e_avg_total_fees_new C
+    /\ e_avg_total_fees_atr V = e_avg_total_fees_atr C
+    /\ e_total_payout_routing V = e_total_payout_routing C
+    /\ e_total_payout_mining V = e_total_payout_mining C
+    /\ e_total_payout_treasury V = e_total_payout_treasury C
+    /\ e_total_payout_graveyard V = e_total_payout_graveyard C
+    /\ e_total_payout_atr V = e_total_payout_atr C
+    /\ e_avg_payout_routing V = e_avg_payout_routing C
+    /\ e_avg_payout_mining V = e_avg_payout_mining C
+    /\ e_avg_payout_treasury V = e_avg_payout_treasury C
+    /\ e_avg_payout_graveyard V = e_avg_payout_graveyard C
+    /\ e_avg_payout_atr V = e_avg_payout_atr C
+    /\ e_avg_fee_per_byte V = e_avg_fee_per_byte C
+    /\ e_fee_per_byte V = e_fee_per_byte C
+    /\ e_avg_nolan_rebroadcast_per_block V = e_avg_nolan_rebroadcast_per_block C
+    /\ e_burnfee V = e_burnfee C
+    /\ e_difficulty V = e_difficulty C
+    /\ c_total_rebroadcast_slips cV = nsum (map t_atr_slips (c_rebroadcasts cC))
+    /\ c_rebroadcast_hash cV = hchain (map t_id (c_rebroadcasts cC))
+    /\ match c_fee_tx cC with
+       | Some f => exists f', c_fee_tx cV = Some f' /\ t_id f' = t_id f
+       | None => True
+       end.
+  Proof.
+    intros dbg cC cV. cbv zeta. unfold agreesb.
+    rewrite !andb_true_iff, !N.eqb_eq.
+    split.
+    - intros [[[[[Hg Hbf] Hdf] Hsl] Hrh] Hft].
+      destruct (uadd dbg _ _) as [tf| |s] eqn:Etf; try discriminate.
+      apply eqb_lN_eq in Hg. unfold guarded_fields, set_total_fees in Hg. cbn in Hg.
+      injection Hg as H1 H2 H3 H4 H5 H6 H7 H8 H9 H10 H11 H12 H13 H14 H15 H16 H17 H18 H19 H20.
+      rewrite H1. repeat (split; [first [reflexivity|assumption]|]).
+      destruct (c_fee_tx cC) as [f|]; [|exact I].
+      destruct (c_fee_tx cV) as [f'|]; [|discriminate]. exists f'. split; [reflexivity|now apply N.eqb_eq].
+    - intros (H1 & H2 & H3 & H4 & H5 & H6 & H7 & H8 & H9 & H10 & H11 & H12 & H13 & H14 & H15 & H16
+              & H17 & H18 & H19 & H20 & Hbf & Hdf & Hsl & Hrh & Hft).
+      rewrite H1. repeat split; try assumption.
+      + assert (E : guarded_fields (c_econ cV)
+                    = guarded_fields (set_total_fees (c_econ cC) (e_total_fees (c_econ cV)))).
+        { unfold guarded_fields, set_total_fees. cbn.
+          rewrite H2, H3, H4, H5, H6, H7, H8, H9, H10, H11, H12, H13, H14, H15, H16, H17, H18, H19, H20.
+          reflexivity. }
+        rewrite E. apply eqb_lN_refl.
+      + destruct (c_fee_tx cC) as [f|]; [|reflexivity].
+        destruct Hft as (f' & -> & E). now apply N.eqb_eq.
+  Qed.
+
+  (* ---------------------------------------------------------------- outside the listed classes *)
+  Notation KnownM := (Known_C07 chain view cv tx_valid gt_ok hchain).
+
+  Theorem produced_validates_outside_known : forall dbg (n : nodeM) creator ts gt drained b p,
+    v_tip (view (n_chain _ n)) = Some p ->
+    createM dbg n creator ts gt drained = Ok b ->
+    KnownM dbg n creator ts gt drained b = false ->
+    let cC := cv (n_chain _ n) (n_ledger _ n) (pre_block (Some p) (par_hash p) creator ts gt drained) in
+    cv_types_ok cC = true ->
+    (c_fee_tx cC <> None -> gt <> None) ->
+    (forall g, gt = Some g -> is_type TGoldenTicket g = true) ->
+    pool_types_ok drained = true ->
+    drained <> [] ->
+    work_needed (par_burnfee p) ts (par_ts p) (v_heartbeat (view (n_chain _ n))) <= nsum (map t_work drained) ->
+    validateM dbg n true b = Ok true.
+  Proof.
+    intros dbg n creator ts gt drained b p Htip Hcreate Hk cC Hty Hfeegt Hgt Hpool Hne Hwork.
+    unfold Known_C07 in Hk. rewrite Htip in Hk. cbv zeta in Hk. fold cC in Hk.
+    rewrite !orb_false_iff in Hk. destruct Hk as [[[[K1 K2] K3] K4] K5].
+    apply negb_false_iff in K1, K2.
+    eapply produced_validates; eauto.
+    - intros g Hg. split; [now apply Hgt|]. rewrite Hg in K3. now apply negb_false_iff in K3.
+    - apply N.ltb_ge in K4. lia.
+    - rewrite andb_false_iff, !negb_false_iff, !N.eqb_eq in K5. exact K5.
+  Qed.
+
+  (* ---------------------------------------------------------------- two more ways of not producing *)
+  Theorem bundle_ts_panics : forall dbg (n : nodeM) creator m ts gt stake order p,
+    v_tip (view (n_chain _ n)) = Some p -> ts <= par_ts p ->
+    bundleM dbg n creator m ts gt stake order = Panic SITE_BUNDLE_TS.
+  Proof.
+    intros dbg n creator m ts gt stake order p Htip Hle. unfold bundle. rewrite Htip.
+    assert (E : (par_ts p <? ts) = false) by (apply N.ltb_ge; exact Hle). now rewrite E.
+  Qed.
+
+  Theorem create_failure_drains : forall dbg (n : nodeM) creator m ts gt s order w m1,
+    (match v_tip (view (n_chain _ n)) with Some p => par_ts p | None => 0 end) < ts ->
+    can_bundleM n m ts (is_some gt) = Some w ->
+    intakeM dbg n m s = Ok m1 ->
+    createM dbg n creator ts gt (drain_in order (m_txs m1)) = Err ->
+    exists m', bundleM dbg n creator m ts gt (Some s) order = Ok (CreateFailed, m')
+               /\ m_txs m' = [] /\ m_work m' = 0.
+  Proof.
+    intros dbg n creator m ts gt s order w m1 Hts Hgate Hi Hc. unfold bundle.
+    assert (E : negb ((match v_tip (view (n_chain _ n)) with Some p => par_ts p | None => 0 end) <? ts) = false).
+    { apply negb_false_iff. now apply N.ltb_lt. }
+    rewrite E, Hgate, Hi. cbn [bind]. rewrite Hc. eexists. repeat split.
+  Qed.
+
+  Lemma uadd_not_err dbg a b : uadd dbg a b <> Err.
+  Proof. unfold uadd. destruct (_ <? two64); [discriminate|]. destruct dbg; discriminate. Qed.
+  Lemma usub_not_err dbg a b : usub dbg a b <> Err.
+  Proof. unfold usub. destruct (_ <=? _); [discriminate|]. destruct dbg; discriminate. Qed.
+
+  Lemma create_err_is_double_spend : forall dbg (n : nodeM) creator ts gt drained,
+    createM dbg n creator ts gt drained = Err ->
+    let v := view (n_chain _ n) in
+    let tip_hash := match v_tip v with Some p => par_hash p | None => 0 end in
+    let cC := cv (n_chain _ n) (n_ledger _ n) (pre_block (v_tip v) tip_hash creator ts gt drained) in
+    dup_spend ((opt_list gt ++ drained) ++ c_rebroadcasts cC ++ opt_list (c_fee_tx cC)) = true.
+  Proof.
+    intros dbg n creator ts gt drained H. cbv zeta. unfold create in H. cbv zeta in H.
+    do 4 (match type of H with
+          | bind ?r _ = _ =>
+              let E := fresh "E" in
+              destruct r as [?| |?] eqn:E;
+                [cbn [bind] in H
+                |exfalso; first [eapply uadd_not_err; eassumption|eapply usub_not_err; eassumption]
+                |cbn [bind] in H; discriminate]
+          end).
+    cbn [b_txs pre_block] in H. destruct (dup_spend _) eqn:Ed; [reflexivity|discriminate].
+  Qed.
 End Main.
